@@ -15,6 +15,7 @@ const (
 	locField locKind = iota // Comp[Base]
 	locElem                 // Comp[Base][Idx]
 	locCell                 // Comp[Base]
+	locLocal                // Comp itself holds the value (non-escaping local variable)
 )
 
 // Loc is a statically known memory location (the value of a pointer that is
@@ -24,7 +25,8 @@ type Loc struct {
 	Comp     string
 	CompSort Sort
 	Base     Term
-	Idx      Term
+	Idx      Term // element index relative to Off
+	Off      Term // offset of the slice inside its backing array (locElem)
 	Path     []int // struct field path inside the stored value
 	Sort     Sort  // sort of the value at the end of Path
 	Root     Sort  // sort of the stored value (before Path)
